@@ -225,6 +225,20 @@ func checkC07(ctx *core.Ctx, rep *core.Report) {
 			rep.Violate(b[0], b[1]+" [seed "+st.Seed.Name+"]", st.Replay())
 		}
 	})
+	// revocation lists over the entry-list product (common.go): every list of ≤2 (thorough 3) entries over serial × reasonCode,
+	// in every order, each under every single-lint registry and the group / complement families
+	maxLen := 2
+	if !ctx.Quick() {
+		maxLen = 3
+	}
+	n := crlEntryStates(ctx, all, maxLen, func(st *xstate.State) {
+		rep.Inc("states")
+		rep.Inc("transitions")
+		for _, b := range c07State(st, fam, true, rep) {
+			rep.Violate(b[0], b[1]+" [CRL template "+st.Seed.Name+" "+strings.Join(st.Path, ",")+"]", st.Replay())
+		}
+	})
+	rep.Add("crl_entry_list_states", int64(n))
 }
 
 func replayC07(rp map[string]interface{}) (string, error) {
